@@ -6,6 +6,7 @@ CONSTANTS
   devs = {}
   Total <- MCTotal
   TooLarge <- MCTooLarge
+  Skip <- MCSkip
 INIT Init
 NEXT Next
 INVARIANTS Prefix FdsOwn SeqIncreasing RejectWithoutReading NoFdsError Complete
